@@ -79,19 +79,32 @@ def make_deck(ch, dims, skew, by_rpp, arr_mode, ranges=None):
             pairs.append(((n, lohi[ax][1]), (n, lohi[ax][0])))
         dims = 3
     else:
-        for ax in order:
+        # one plane of a pair may be written with the opposite normal (P -a -b -c -d, sense on the cell card
+        # changed accordingly): the two planes of the pair then have opposite orientations
+        negated = ch.choose('negated-normal', ['none', 'pair0-low', 'pair0-high', 'pair1-low'])
+        for k_ax, ax in enumerate(order):
             lo, hi = lohi[ax]
             n = np.array(normals[ax])
             hi_first = ch.choose('hi-first%d' % ax, [True, False])
             s_hi, s_lo = snum, snum + 1
             snum += 2
-            mn, p = plane_card(n, hi); d.add_surface(s_hi, mn, p)
-            mn, p = plane_card(n, lo); d.add_surface(s_lo, mn, p)
+            neg_hi = negated == 'pair%d-high' % k_ax
+            neg_lo = negated == 'pair%d-low' % k_ax
+            if neg_hi:
+                d.add_surface(s_hi, 'p', list(-n) + [-hi])
+            else:
+                mn, p = plane_card(n, hi); d.add_surface(s_hi, mn, p)
+            if neg_lo:
+                d.add_surface(s_lo, 'p', list(-n) + [-lo])
+            else:
+                mn, p = plane_card(n, lo); d.add_surface(s_lo, mn, p)
+            l_hi = s_hi if neg_hi else -s_hi          # the side of the plane on which the unit cell lies
+            l_lo = -s_lo if neg_lo else s_lo
             if hi_first:
-                lits += [-s_hi, s_lo]
+                lits += [l_hi, l_lo]
                 pairs.append(((n, hi), (n, lo)))
             else:
-                lits += [s_lo, -s_hi]
+                lits += [l_lo, l_hi]
                 pairs.append(((n, lo), (n, hi)))
         expr = hier.group_pairs(lits, ch.choose('grouping', ['flat', 'pairs', 'complement']))
     base = base_vectors(pairs)
